@@ -523,6 +523,9 @@ def finish(p, v, cfg, scale=None):
     }
     with open(os.path.join(p.evidence, f"{v.prop}.json"), "w") as f:
         json.dump(ev, f, indent=1, sort_keys=False)
+    # the latest run of each tier is kept as well (the file above is rewritten by every run)
+    with open(os.path.join(p.evidence, f"{v.prop}.{v.tier}.json"), "w") as f:
+        json.dump(ev, f, indent=1, sort_keys=False)
 
     for sig, text, cnt in known_hit:
         print(f"KNOWN-FINDING: property={v.prop} {text} [sig={sig}; {cnt} case(s) this run]")
@@ -553,7 +556,7 @@ def thorough_budget(variant, opts):
         return int(env)
     if "budget" in opts:
         return int(opts["budget"])
-    return 1500 if variant in ("miri", "vg", "asan") else 900
+    return 900 if variant in ("miri", "vg", "asan") else 600
 
 
 def generic_check(p, prop, tier, seed, cfg):
